@@ -338,10 +338,11 @@ _LANG4 = ("Lang.tla / LangGen.tla also cover records (literal, field access, upd
           "order they are written), closures handed to named functions and wrapped in further closures next to a captured "
           "variable, callee expressions with stateful call sites, two output channels")
 EXTRA4 = {
-    "C01": _LANG4 + "; arrays, numeric match and a recursive function are generated too (outside C02's list: back end against back end only).",
+    "C01": _LANG4 + "; arrays, numeric match and a recursive function are generated too (outside C02's list: back end against back end only). "
+           "Layer (f): the state-site position table (inline and let-bound variants), VM against WASM.",
     "C02": _LANG4 + "; the random generator produces records as well. The state-site position table (lib/sitepos.py) compares a "
            "stateful call written inside any expression form with the same call bound by a let first (Lockstep.tla).",
-    "C18": _LANG4 + ", arrays, numeric match and a recursive function (the latter three: generated Rust against the VM only), at budgets one rustc run per program allows.",
+    "C18": _LANG4 + ", arrays, numeric match and a recursive function (the latter three: generated Rust against the VM only), at budgets one rustc run per program allows; the state-site position table.",
     "C16": "Field names are renamed as well (Lang.RenameE and the source transformation); LangGen jobs over records whose initialisers "
            "assign a shared variable; the record table includes initialisers with side effects (literal, update, parameter pack) and "
            "record patterns (same / swapped order, annotated result types, global patterns); a block-scope table renames a binder "
